@@ -46,7 +46,7 @@ CLAIMS = {
    technique="must-dataflow over go/ssa (deferred teardown, exit coverage, completion counting), type-directed exhaustiveness of channel closing",
    design="§4 C10"),
  "C11": dict(
-   text="Structural clauses of client robustness: every input-driven recursion cycle of the client's call graph is depth-bounded (Decoder.List's checked guard or a capped strictly increasing counter proven around every cycle); numbers read from the wire reach result sets only after a non-zero test; every parsed number set is refused when dynamic; the reader goroutine recovers and tears down; enumeration loops over unsigned ranges cannot wrap at 2^32-1; nil-able command fields are dereferenced in reader-run code only after a non-nil test (their own or the selecting matcher's); numbers parsed from the wire are never narrowed below their parse width. 'other': necessary conditions over all cycles/sites; absence of every other panic in accessors and super-linear cost are not decided.",
+   text="Structural clauses of client robustness: every input-driven recursion cycle of the client's call graph is depth-bounded (Decoder.List's checked guard or a capped strictly increasing counter proven around every cycle); numbers read from the wire reach result sets only after a non-zero test; every parsed number set is refused when dynamic; the reader goroutine recovers and tears down; enumeration loops over unsigned ranges cannot wrap at 2^32-1; nil-able command fields are dereferenced in reader-run code only after a non-nil test (their own or the selecting matcher's); numbers parsed from the wire are never narrowed below their parse width; message numbers and UIDs from the wire reach the 7 delivery sinks (FETCH seqnum/UID, EXPUNGE, SORT, THREAD, APPENDUID) only through a non-zero test. 'other': necessary conditions over all cycles/sites; absence of every other panic in accessors and super-linear cost are not decided.",
    technique="call-graph SCC analysis with ranking-function recognition, wire-value taint with dominating-test rules over go/ssa, loop-shape (integer wrap) rule",
    design="§4 C11"),
  "C12": dict(
